@@ -40,6 +40,7 @@ VARIANTS = [
      [(V, "(arg_type == 'number' and (not isinstance(arg_value, (int, float)) or isinstance(arg_value, bool)))", "(arg_type == 'number' and not isinstance(arg_value, (int, float)))")], 'C15.T'),
     ('fixed-N2', 'C08', 'break', 'argument list None without args', [(R, "if 'args' in expr['function'] else []", "if 'args' in expr['function'] else None")], 'C08.A'),
     ('fixed-N4', 'C02', 'break', 'one-character function names not callable', [(P, "_R_EXPR_FUNCTION_OPEN = re.compile(r'^\\s*([A-Za-z_]\\w*)\\s*\\(')", "_R_EXPR_FUNCTION_OPEN = re.compile(r'^\\s*([A-Za-z_]\\w+)\\s*\\(')")], 'C02.I'),
+    ('fixed-CSVNONE', 'C05', 'break', 'dataParseCSV keeps the None rest key', [(L, "    for row in data:\n        row.pop(None, None)\n", "")], 'C05.K'),
     ('fixed-LAA', 'C04', 'break', 'lastArgArray False collects all arguments',
      [(R, "ix_arg_last = (func_args_length - 1) if function.get('lastArgArray') else None", "ix_arg_last = function.get('lastArgArray', None) and (func_args_length - 1)")], 'C04.B'),
 
